@@ -94,6 +94,14 @@ pub fn reset() {
     }
 }
 
+/// Copy of the transcript fed to the most recent hasher, with its length.
+pub fn transcript() -> ([u8; CAP], usize) {
+    #[allow(static_mut_refs)]
+    unsafe {
+        (CUR, CUR_LEN)
+    }
+}
+
 /// Length of the transcript fed to the most recent hasher (for vacuity/cover checks).
 pub fn last_len() -> usize {
     unsafe { CUR_LEN }
